@@ -961,7 +961,7 @@ fn inject(d: &mut D, step: usize, rooted: bool, out: &mut RunOut, want_raw: bool
         }
     }
     let keep_pre: Vec<(String, usize)> = roots.iter().enumerate().map(|(i, a)| (format!("x{}", i), *a)).collect();
-    let pre = if want_raw { raw_state(d, "F10:-") } else { String::new() };
+    let pre = raw_state(d, "F10:-");
     let spre = snapshot(d, &syms, &keep_pre);
     let r = catch(|| d.optimize(&roots));
     out.calls += 1;
@@ -989,6 +989,19 @@ fn inject(d: &mut D, step: usize, rooted: bool, out: &mut RunOut, want_raw: bool
         Ok(Err(e)) => {
             if out.bad.len() < 3 {
                 out.bad.push(format!("{}:OPTERR:{}", step, err_class(&e)));
+            }
+            if out.raws.len() < 6 {
+                let now = raw_state(d, "F10:-");
+                out.raws.push(format!(
+                    "O | roots={} | res=Err:{} | pre={} | post={} | spre={} | spost={} | ys={}",
+                    dotted(roots.iter().map(|x| x.to_string())),
+                    err_class(&e),
+                    pre,
+                    now,
+                    spre,
+                    spre,
+                    dotted(syms.iter().map(|x| format!("{:x}", x)))
+                ));
             }
         }
         Err(_) => {
@@ -1086,9 +1099,15 @@ fn run_x(rest: &str) -> (String, String) {
     let mut singles_ok = 0;
     let mut singles_n = 0;
     let mut first_bad = "-".to_string();
+    let mut err_recs: Vec<String> = vec![];
     let ks: Vec<usize> = if n + 1 <= kmax { (0..=n).collect() } else { (0..kmax).map(|i| i * n / (kmax - 1)).collect() };
     for k in ks {
         let r = run_program(&built, Mode::Single(k), &[]);
+        for raw in r.raws.iter().filter(|x| x.contains("| res=Err:")) {
+            if err_recs.len() < 2 {
+                err_recs.push(raw.clone());
+            }
+        }
         singles_n += 1;
         if r.end == base.end && r.bad.is_empty() {
             singles_ok += 1;
@@ -1109,6 +1128,8 @@ fn run_x(rest: &str) -> (String, String) {
     )];
     recs.extend(every.raws.iter().cloned());
     recs.extend(rooted.raws.iter().cloned());
+    recs.extend(twice.raws.iter().filter(|x| x.contains("| res=Err:")).take(2).cloned());
+    recs.extend(err_recs);
     (recs.join(" ## "), "-".to_string())
 }
 
